@@ -344,9 +344,9 @@ func (s *super) recordCrash(tag string, p *program, injs []inj, order int64, die
 
 func Run(r *rep.Report, tier string) {
 	b := boundsFor(tier)
-	budget := 50 * time.Second
+	budget := 40 * time.Second // plus up to 10s to drain parked cases
 	if tier == "thorough" {
-		budget = 9 * time.Minute
+		budget = 8*time.Minute + 30*time.Second
 	}
 	exe, err := os.Executable()
 	if err != nil {
